@@ -158,6 +158,9 @@ func (s *Sim) Run(body func(g *Gen)) (*Gen, simrt.Result) {
 	g := &Gen{S: s, W: w}
 	w.FSHandler = func(ev *simrt.FSEvent) {
 		s.FS[simrt.FSKindName(ev.Kind)+":"+fileClass(ev.Path)]++
+		if fsTrace {
+			fmt.Fprintf(os.Stderr, "FSEV gen=%d #%d step=%d %s %s off=%d len=%d task=%d\n", s.Gens, ev.Seq, ev.Step, simrt.FSKindName(ev.Kind), filepath.Base(ev.Path), ev.Off, len(ev.Data), ev.Task)
+		}
 		rel, _ := filepath.Rel(s.Dir, ev.Path)
 		s.logEvent(simrt.FSKindName(ev.Kind), rel, ev.Off^(ev.Step<<20), ev.Data)
 		if s.OnFS != nil {
@@ -205,6 +208,7 @@ func (s *Sim) Run(body func(g *Gen)) (*Gen, simrt.Result) {
 }
 
 var hashOverride func(key []byte) uint64
+var fsTrace = os.Getenv("VERIF_FSTRACE") != ""
 
 // NewConn opens a simulated connection served by the real ServerConn.Serve loop over the real
 // storage client.
